@@ -4,14 +4,15 @@
    and their lookup objects); [final W call [] ops] is the system reached by the history [ops]
    from nothing, for ANY specification world [W] and ANY behaviour [call] of registered factories.
    [wf_hist fl 0 ops]: all registries have flavour [fl], a new registry's bases exist, __bases__
-   is assigned registries with smaller numbers (acyclic), operations address existing registries,
-   no rebuild() (Spec/RegChain.v).  [fresh_ro s r] = ro.ro(registry r) computed from scratch over
+   is assigned registries with smaller numbers (acyclic), operations (rebuild() included) address
+   existing registries (Spec/RegChain.v).  [fresh_ro s r] = ro.ro(registry r) computed from scratch over
    the CURRENT __bases__ of all registries (Model/RegSys.v, Model/Ro.v: C3);
    [chain_regs s r] = the storages of those registries in that order;
    [Reach (Bs s) r m] = m is r or a transitive base of r through the current __bases__. *)
 From Coq Require Import List Arith Bool.
 Import ListNotations.
-From ZI Require Import Model.Ro Model.Adapter Model.Lookup Model.RegSys Spec.RegChain Proofs.RegChain.
+From ZI Require Import Model.Ro Model.Adapter Model.Lookup Model.RegSys Model.RegPrim Spec.RegChain Proofs.RegChain
+     Gen.RegChainKernel Proofs.RegChainKernel.
 
 (* (a) push flavour: after every history the cached ``ro`` of EVERY registry is the C3 order of
    the current base graph — whichever registry's __bases__ were assigned, at any level *)
@@ -130,6 +131,60 @@ Theorem C06_verifying_verify_empties_cache : forall W call ops r, wf_hist Verify
 Proof. exact verifying_verify_empties_hist. Qed.
 Print Assumptions C06_verifying_verify_empties_cache.
 
+(* ------------------------------------------------------------------ the tie to the source text
+   Gen/RegChainKernel.v is regenerated on every run from /repo/src/zope/interface/adapter.py by the
+   fail-closed translator harness/translate/regchain.py (g_* = the translated methods, composed
+   from the statement vocabulary of Model/RegPrim.v).  For ALL system states the generated
+   functions are the functions of Model/RegSys.v the theorems above are about. *)
+
+(* BaseAdapterRegistry._refresh_ro: the ``while True`` re-check loop exits in its first round *)
+Theorem C06_generated_refresh_loop_exits_first_round : forall n s r,
+  g_Base_refresh_ro_loop (S n) s r = Some (refresh_ro 0 s r).
+Proof. exact base_refresh_loop_one_round. Qed.
+Print Assumptions C06_generated_refresh_loop_exits_first_round.
+
+(* registry._refresh_ro() incl. AdapterRegistry's recursion into the sub-registries *)
+Theorem C06_generated_refresh_ro_eq_model : forall fuel s r, g_refresh_ro fuel s r = refresh_ro fuel s r.
+Proof. exact refresh_ro_eq. Qed.
+Print Assumptions C06_generated_refresh_ro_eq_model.
+
+(* the lookup object's changed(): LookupBase / AdapterLookupBase / VerifyingBase /
+   VerifyingAdapterLookup composed along the MRO of the registry's LookupClass *)
+Theorem C06_generated_lookup_changed_eq_model : forall b s r, g_lookup_changed s r = lookup_changed b s r.
+Proof. exact lookup_changed_eq. Qed.
+Print Assumptions C06_generated_lookup_changed_eq_model.
+
+(* registry.changed(): generation bump, lookup changed(), AdapterRegistry's fan-out *)
+Theorem C06_generated_changed_eq_model : forall fuel s r, g_changed fuel s r = sub_changed fuel s r.
+Proof. exact changed_eq. Qed.
+Print Assumptions C06_generated_changed_eq_model.
+
+Theorem C06_generated_changed_eq_after_bump : forall s r,
+  g_changed (S (length s)) s r = after_bump (upd s r bump) r.
+Proof. exact changed_eq_after_bump. Qed.
+Print Assumptions C06_generated_changed_eq_after_bump.
+
+(* registry.__bases__ = bases: both _setBases, the sub-registry bookkeeping loops included *)
+Theorem C06_generated_setBases_eq_model : forall (s : sys) r bs,
+  g_setBases (length s) (S (length s)) s r bs = set_bases s r bs.
+Proof. exact setBases_eq. Qed.
+Print Assumptions C06_generated_setBases_eq_model.
+
+(* VerifyingBase._verify *)
+Theorem C06_generated_verify_eq_model : forall s r, g_verify s r = verify s r.
+Proof. exact verify_eq. Qed.
+Print Assumptions C06_generated_verify_eq_model.
+
+(* AdapterRegistry.__init__: a new registry has no sub-registries; rebuild() keeps them *)
+Theorem C06_generated_init_eq_model : forall W call s r fl bs,
+  new_reg s fl bs = set_bases (s ++ [mkRS empty_reg empty_caches [] [] (g_AR_init_subs None) [] [] fl]) (length s) bs /\
+  fst (step W call s (ORebuild r)) =
+  after_bump (set s r (mkRS (rebuild W (rs_reg (get s r))) (rs_caches (get s r)) (rs_bases (get s r))
+                            (rs_ro (get s r)) (g_AR_init_subs (Some (rs_subs (get s r)))) (rs_vro (get s r))
+                            (rs_vgen (get s r)) (rs_flavour (get s r)))) r.
+Proof. exact init_eq. Qed.
+Print Assumptions C06_generated_init_eq_model.
+
 (* ------------------------------------------------------------------ non-vacuity witnesses *)
 (* world: spec 1 is an interface extending Interface (= spec 0) *)
 Definition W0 : world := mkW (fun x => match x with 0 => [0] | _ => [x; 0] end) (fun _ => true).
@@ -181,3 +236,17 @@ Definition masked : list rop :=
 Example masked_verifying : wf_hist Verifying 0 masked = true /\
   run W0 call0 [] masked = [[]; []; []; []; []; []; [1; 1]; []; []; [1; 2]].
 Proof. split; vm_compute; reflexivity. Qed.
+
+(* rebuild() in the middle of a chain: mid is rebuilt, then re-based; bot still follows *)
+Definition chain3_rebuild (fl : flavour) : list rop :=
+  [ONewReg fl []; ONewReg fl []; ONewReg fl [0]; ONewReg fl [2];
+   ORegister 0 [] 1 0 (Some (mkV 1 1)); ORegister 1 [] 1 0 (Some (mkV 2 2));
+   QLookup 3 [] 1 (NStr 0);
+   ORebuild 2;
+   OSetRegBases 2 [1];
+   QLookup 3 [] 1 (NStr 0)].
+Example chain3_rebuild_ok :
+  wf_hist Push 0 (chain3_rebuild Push) = true /\ wf_hist Verifying 0 (chain3_rebuild Verifying) = true /\
+  run W0 call0 [] (chain3_rebuild Push) = [[]; []; []; []; []; []; [1; 1]; []; []; [1; 2]] /\
+  run W0 call0 [] (chain3_rebuild Verifying) = [[]; []; []; []; []; []; [1; 1]; []; []; [1; 2]].
+Proof. repeat split; vm_compute; reflexivity. Qed.
